@@ -112,8 +112,8 @@ def _classes():
                 return None
 
         class Alg(dawgie.Algorithm):
-            def __init__(self, name='alg', svs=()):
-                self._version_ = dawgie.VERSION(1, 0, 0)
+            def __init__(self, name='alg', svs=(), ver=0):
+                self._version_ = dawgie.VERSION(1, 0, ver)
                 self._name = name
                 self._svs = list(svs)
 
@@ -221,8 +221,14 @@ def flatten(hist):
     return out
 
 
+def alglabel(op):
+    """algorithm name, with its version when the history re-executes a run under a bumped algorithm version
+    (same run id and names, another version = another catalogue entry)"""
+    return op['alg'] + ('@1.0.%d' % op['ver'] if op.get('ver') else '')
+
+
 def keylabel(op, svn, vn):
-    return '.'.join([str(op['run']), op['target'], op['task'], op['alg'], svn, vn])
+    return '.'.join([str(op['run']), op['target'], op['task'], alglabel(op), svn, vn])
 
 
 # ------------------------------------------------------------------ environment (fresh dirs)
@@ -560,9 +566,9 @@ def _do(i, op):
         warnings.simplefilter('ignore')
         if k == 'update':
             svs = [SV(svn, [(vn, make_value(cid)) for vn, cid in vals]) for svn, vals in op['svs']]
-            model.Interface(Alg(op['alg'], svs), _bot(op), op['target'])._update()
+            model.Interface(Alg(op['alg'], svs, op.get('ver', 0)), _bot(op), op['target'])._update()
         elif k == 'msv':
-            ds = model.Interface(Alg(op['alg'], []), _bot(op), op['target'])
+            ds = model.Interface(Alg(op['alg'], [], op.get('ver', 0)), _bot(op), op['target'])
             ds._update_msv(dawgie.util.MetricStateVector(dawgie.METRIC(*op['db']), dawgie.METRIC(*op['tk'])))
         elif k == 'remove':
             RT.flat += 1
@@ -708,6 +714,10 @@ def observe(env):
         finally:
             sh.close()
     inv = {t: {i: _dissect(n) for n, i in tabs[t].items()} for t in ('alg', 'state', 'target', 'task', 'value')}
+    for n, i in tabs['alg'].items():  # entries of one run under different algorithm versions are different keys
+        ver = n.split('___version:', 1)[1] if '___version:' in n else '1.0.0'
+        if ver != '1.0.0':
+            inv['alg'][i] = inv['alg'][i] + '@' + ver
     prime = {}
     for k, v in tabs['prime'].items():
         try:
@@ -1125,7 +1135,12 @@ def gen_history(r, size):
     n = r.choice(size)
     for _ in range(n):
         x = r.random()
-        if x < 0.62 or not written:
+        if x < 0.1:
+            # the same run id executed again under a bumped algorithm version: same names, another catalogue entry
+            # (never the object of a `remove`: dawgie.db.remove addresses all versions of a name at once)
+            hist.append(upd(5, 'T1', 'tk1', 'V3', [['S1', [['v1', r.choice([2, 3, 4])], ['w2', r.choice([3, 6])]]]],
+                            r.choice([1, 2])))
+        elif x < 0.62 or not written:
             op = {'kind': 'update', 'run': r.choice([1, 1, 2, 3]), 'target': r.choice(targets),
                   'task': r.choice(tasks), 'alg': r.choice(algs), 'svs': []}
             pool = r.choice([[1, 2], [2, 3, 4], [5, 5, 6], [1, 7], [2, 8, 8, 3]] * 4 + [[2, 12], [10, 3, 3]])
@@ -1149,11 +1164,21 @@ def gen_history(r, size):
     return hist
 
 
-def upd(run, target, task, alg, svs):
-    return {'kind': 'update', 'run': run, 'target': target, 'task': task, 'alg': alg, 'svs': svs}
+def upd(run, target, task, alg, svs, ver=0):
+    op = {'kind': 'update', 'run': run, 'target': target, 'task': task, 'alg': alg, 'svs': svs}
+    if ver:
+        op['ver'] = ver
+    return op
 
 
 CORPUS = [
+    # one run id executed twice, under algorithm versions 1.0.1 and 1.0.2: same names, two catalogue entries with
+    # different content (v1) and shared content (w2); an orphan made by remove; then the purge tool
+    [upd(5, 'T1', 'tk1', 'V3', [['S1', [['v1', 2], ['w2', 3]]]], 1),
+     upd(5, 'T1', 'tk1', 'V3', [['S1', [['v1', 4], ['w2', 3]]]], 2),
+     upd(6, 'T2', 'tk1', 'A1', [['S1', [['v1', 5]]]]),
+     {'kind': 'remove', 'run': 6, 'target': 'T2', 'task': 'tk1', 'alg': 'A1', 'sv': 'S1', 'vn': 'v1'},
+     {'kind': 'purge'}],
     # serialisations of 1 MiB + 1 and 2 MiB + 3 bytes under two keys, the first again in a later run (not new),
     # next to 1 MiB - 1: block-wise digests, copies and torn writes see more than one block
     [upd(1, 'T1', 'tk1', 'A1', [['S1', [['v1', 10], ['w2', 11]]]]),
